@@ -641,6 +641,11 @@ def has_doc_attr(attrs):
     return any(a['path'] == 'doc' for a in attrs)
 
 
+def canon_ty(t):
+    """`arbitrary_int::uN` and `uN` name the same type (the user may write either; the macro echoes the spelling)"""
+    return re.sub(r'(?<![\w:])(?:::)?arbitrary_int::(u\d+)\b', r'\1', t or '')
+
+
 def coq_sig(fi):
     selfk = ''
     params = []
@@ -648,9 +653,10 @@ def coq_sig(fi):
         if 'self' in p:
             selfk = p['self']
         elif 'name' in p:
-            params.append((p['name'], p['ty']))
+            params.append((p['name'], canon_ty(p['ty'])))
         else:
             params.append(('?', p.get('other', '?')))
+    fi = dict(fi, ret=canon_ty(fi['ret']))
     return '(mkSig %s %s %s %s %s [%s] %s)' % (
         cstr(fi['name']), 'true' if fi['vis'] == 'pub' else 'false', 'true' if fi['const'] else 'false',
         'true' if has_doc_attr(fi['attrs']) else 'false', cstr(selfk),
